@@ -1,6 +1,7 @@
 (* Proofs of the concurrency properties C14 / C04 / C03 over PipeConc, from the invariant of PipeInv.v.
-   Dependency order: PipeLemmas.v, PipeInv.v, PipeProofs.v. *)
+   Dependency order: PipeLemmas.v, PipeInv.v, PipeTerm.v, PipeProofs.v. *)
 From Wencry Require Import Bytes FileModel PipeConc PipeProps PipeLemmas PipeInv.
+From Wencry Require Export PipeTerm.   (* C04_bounded_steps_proof *)
 From Coq Require Import ZifyNat.
 Local Open Scope nat_scope.
 
